@@ -358,7 +358,9 @@ def run_real(kind, params, steps):
     env.process(driver())
     outcome = None
     try:
-        env.run(until=len(steps) + 1.5)
+        from ..kernel import ExecTimer
+        with ExecTimer():
+            env.run(until=len(steps) + 1.5)
     except BaseException as e:      # noqa
         outcome = e
     return snaps, outcome, evs
